@@ -17,7 +17,7 @@ inductive CE where
   | snIn (t : Nat) (b : Bytes)
   | out (t : Nat) (o : Cl.Out)
   /-- implementation-only lines: handler with the filter that ran, leak, panic -/
-  | handlerRan (t : Nat) (filter topic : Bytes)
+  | handlerRan (t : Nat) (filter topic : Bytes) (qos : Nat := 0) (payload : Bytes := [])
   | note (t : Nat) (what : String)
   deriving Repr
 
@@ -236,7 +236,7 @@ def c27 (cfg : Cl.Cfg) (tr : List CE) : List Viol :=
           | some n => (subs.filter (·.filter != n), vs)
           | none => (subs, vs))
        | _ => (subs, vs))
-    | .handlerRan t label topic =>
+    | .handlerRan t label topic _ _ =>
       (match subs.find? (·.label == label) with
        | some s =>
          if specMatch (splitTopic s.filter) (splitTopic topic) then (subs, vs)
@@ -341,5 +341,35 @@ def c06 (tr : List CE) : List Viol :=
       if running && tit ≤ 2 && !(outs.any fun (t2, q) => t2 == t && q == .pubrec mid) then
         [mk "gateway-publish-qos2-not-acknowledged" s!"t={t} mid={mid}"] else []
     | _ => []
+
+/-! ## C16 (client half): the callback of a QoS-2 message runs exactly once
+
+  Walking the trace in order: a QoS-2 PUBLISH from the gateway (first or retransmitted) opens the
+  exchange of its message ID (the newest copy is the one kept); the PUBREL of an open exchange
+  releases the message — one credit with its payload — and closes the exchange; a PUBREL with no
+  open exchange (a retransmission) releases nothing.  Every callback run for a QoS-2 message must
+  use up one credit with its payload: a run without one is a second delivery of the same message,
+  or a delivery before the release.  (That the released message IS delivered when a subscription
+  matches is the other half; it is decided by the comparison with the model, `DIFF client outputs`.) -/
+structure C16St where
+  opened : List (UInt16 × Bytes) := []
+  credits : List Bytes := []
+  vs : List Viol := []
+
+def c16 (tr : List CE) : List Viol :=
+  (tr.foldl (fun (s : C16St) e =>
+    match e with
+    | .snIn _ b =>
+      (match pktOf (b.take Gen.MaxPacketLen) with
+       | some (.publish _ 2 _ _ _ mid data) => { s with opened := (mid, data) :: s.opened.filter (·.1 != mid) }
+       | some (.pubrel mid) =>
+         (match s.opened.lookup mid with
+          | some data => { s with opened := s.opened.filter (·.1 != mid), credits := s.credits ++ [data] }
+          | none => s)
+       | _ => s)
+    | .handlerRan t _ _ 2 payload =>
+      if s.credits.contains payload then { s with credits := s.credits.erase payload }
+      else { s with vs := s.vs ++ [mk "qos2-callback-without-a-release" s!"t={t}"] }
+    | _ => s) ({} : C16St)).vs
 
 end Bisquitt.Spec.ClientSpec
